@@ -149,6 +149,18 @@ claim("C13", "other",
       "decision-table extraction from MIR (incl. closure bodies) + field-use inventory",
       "DESIGN.md §3 C13")
 
+claim("C17", "other",
+      "The decision table of select_nodes_for_gossip (helpers inlined) is extracted from MIR and evaluated exhaustively for "
+      "set sizes 0..6, extreme/mid random draws and both outcomes of 'a sampled peer is a seed' (12,348 combinations, every "
+      "combination must match a path): sample source (live, or all peers when none is live) and constant size 3, dead pick "
+      "whenever dead > live, seed pick whenever isolated with a seed and no sampled seed, picks drawn from their own pools; "
+      "the four pools handed to the selection are traced to cluster_state.nodes()/live_nodes()/dead_nodes()/seed_nodes() with "
+      "the self filters evaluated from the closure bodies.",
+      "Uniformity of rand's sample/choose is not analysed; 'sample(n) yields at most n distinct items' and 'choose is Some iff "
+      "non-empty' are assumed; IEEE division by zero is modelled (inf/NaN).",
+      "decision-table extraction from MIR + exhaustive evaluation of the extracted formulas + dataflow of call arguments",
+      "DESIGN.md §3 C17")
+
 ALL = ["C%02d" % i for i in range(1, 21)]
 PENDING_REASON = "check under construction in this session (rules designed in DESIGN.md §3, not yet armed)"
 
